@@ -181,6 +181,11 @@ func Load(cfg *packages.Config, patterns ...string) ([]*packages.Package, error)
 		if f.Kind == "crash" {
 			crashNow()
 		}
+		if f.Kind == "empty" {
+			// what go/packages returns when `go list` has nothing to load
+			// (observed for a directory outside any module)
+			return nil, nil
+		}
 		return nil, errors.New("go list: injected failure (simulated)")
 	}
 	return packages.Load(cfg, patterns...)
